@@ -188,11 +188,10 @@ def run(prog):
         recs = [cs for cs in te.calls if cs.callee.name == sname]
         errs, perrs = [], []
         lb_mu = best_mu = None
-        for (h, l), v in te.mu_init.items():
-            nm = fn.local_name(l)
-            if nm == "best_lb" and unclone(v) == P_LB:
+        for (h, l), v in te.mu_init.items():   # the running pair is whatever loop-carried locals start as the incoming pair
+            if unclone(v) == P_LB and lb_mu is None:
                 lb_mu = ("mu", h, l)
-            if nm == "best_model" and unclone(v) == P_BEST:
+            if unclone(v) == P_BEST and best_mu is None:
                 best_mu = ("mu", h, l)
         if lb_mu is None or best_mu is None:
             errs.append("running best pair is not initialised with the incoming (bound, best assignment)")
